@@ -196,7 +196,10 @@ class IdentityEnsembleArray(nengo.Network):
                 )
             first_fn = function[0]
             second_fn = function[1]
-            remainder_fn = function[2:]
+            if len(function) == n_remainder + 2:
+                remainder_fn = function[2:]
+            else:
+                remainder_fn = function[2]
         else:
             first_fn = second_fn = remainder_fn = function
 
